@@ -481,6 +481,47 @@ def anchored(ctx, col):
                         f"`{norm_src(x)}` relabels the linked component with `{norm_src(lab)}`, a row index, not the component label `dsu[...]`: "
                         f"the merged component is no longer recognised as part of the one it joined and a later root can link back into it",
                         stmt="merge", definite=True)
+    # the component labels follow every link: inside the loop over the stray roots the label table is re-written for the WHOLE linked component
+    col.rule("R-RELABEL", "nearest-root repair keeps its component labels current: inside the loop over the stray roots the label table is updated after every link, "
+             "and for the whole component that was linked (a mask / np.where over the table, or a fresh get_dsu), not for the root's own row only -- otherwise "
+             "a later root does not see the already linked nodes as its own component, links into them and closes a cycle", floor=1)
+    loops = [x for x in own_nodes(l) if isinstance(x, ast.For)]
+    lab_names = {norm_src(x.targets[0]) for x in own_nodes(l) if isinstance(x, ast.Assign) and len(x.targets) == 1 and isinstance(x.targets[0], ast.Name)
+                 and isinstance(x.value, ast.Call) and (dotted(x.value.func) or "").endswith("get_dsu")}
+    main = [lp for lp in loops if any(isinstance(y, ast.Call) and (dotted(y.func) or "").rsplit(".", 1)[-1] in ("argmin", "nanargmin") for y in ast.walk(lp))]
+    if len(main) == 1 and len(lab_names) == 1:
+        lab = next(iter(lab_names))
+        lp = main[0]
+        row_vars = {n.id for n in ast.walk(lp.target) if isinstance(n, ast.Name)}
+        reads = any(isinstance(n, ast.Name) and n.id == lab and isinstance(n.ctx, ast.Load) for n in ast.walk(lp))
+        whole, single = [], []
+        for x in ast.walk(lp):
+            if isinstance(x, ast.Assign) and len(x.targets) == 1:
+                t = x.targets[0]
+                if isinstance(t, ast.Name) and t.id == lab:
+                    whole.append(x)
+                elif isinstance(t, ast.Subscript) and norm_src(t.value) == lab:
+                    if isinstance(t.slice, ast.Name) and t.slice.id in row_vars:
+                        single.append(x)
+                    else:
+                        whole.append(x)
+            if isinstance(x, ast.Call) and isinstance(x.func, ast.Attribute) and norm_src(x.func.value) == lab and x.func.attr in ("put", "fill", "__setitem__"):
+                whole.append(x)
+        what_r = "after every link the whole linked component carries the label of the component it joined"
+        if single and not whole:
+            col.bad("R-RELABEL", l.qualname, l.loc(single[0]), what_r,
+                    f"`{norm_src(single[0])}` changes the label of the linked root's own row only: the nodes below that root keep the old label, so a root that is "
+                    f"linked later does not count them to its own (merged) component and may be attached to one of them -- a cycle that never reaches the first root",
+                    stmt="relabel", definite=True)
+        elif reads and not whole and not single:
+            col.bad("R-RELABEL", l.qualname, l.loc(lp), what_r,
+                    f"the loop reads the component labels `{lab}` but never updates them: after the first link they describe the forest as it was, and a later root "
+                    f"can be linked into a tree that already hangs below it", stmt="relabel", definite=True)
+        else:
+            col.ok("R-RELABEL", l.qualname, l.loc(lp), what_r, f"{len(whole)} whole-table update(s) in the loop", stmt="relabel")
+    else:
+        col.unresolved("R-RELABEL", l.qualname, l.loc(), "after every link the whole linked component carries the label of the component it joined",
+                       f"{len(main)} candidate loops, label tables {sorted(lab_names)}", stmt="relabel")
     h = repo.get_def(f"{CHK}.has_cyclic")
     col.text_group("R-CHECK", h.qualname, h, [
         ("one element per row", ["dsu = DisjointSetUnion(node_number=node_num)"], "dsu"),
